@@ -450,21 +450,33 @@ void runCond(const Plan& p)
 {
 	int W = (int)std::max<int64_t>(1, std::min<int64_t>(4, p.get("waiters", 1)));
 	bool timed = p.get("timed") != 0;
+	bool jump = p.get("clock_jump_ms") != 0 && timed;
 	asl::Mutex mutex;
 	asl::Condition cond(mutex);
 	volatile bool ready = false;
-	volatile int woke = 0;
+	volatile int woke = 0, timedOutAfterSignal = 0, waitingAtSignal = 0, inWait = 0;
 	volatile int* wp = &woke;
+	volatile int* tp = &timedOutAfterSignal;
+	volatile int* iw = &inWait;
+	volatile double signalAt = -1;
+	volatile double* sa = &signalAt;
 	std::vector<Task> tasks((size_t)W + 1);
 	for (int i = 0; i < W; i++)
 		tasks[(size_t)i].start([&]() {
 			mutex.lock();
 			while (!ready)
 			{
+				*iw = *iw + 1; // under the mutex: this waiter is (about to be) blocked in wait()
 				if (timed)
-					cond.wait(0.5);
+				{
+					// a long timeout: a waiter that is inside wait() when signal() is called must be woken by the signal
+					bool timedOut = cond.wait(30.0);
+					if (timedOut && *sa >= 0)
+						*tp = *tp + 1;
+				}
 				else
 					cond.wait();
+				*iw = *iw - 1;
 			}
 			mutex.unlock();
 			__sync_fetch_and_add(wp, 1);
@@ -477,21 +489,29 @@ void runCond(const Plan& p)
 			asl::sleep(0.01);
 		mutex.lock();
 		ready = true;
+		waitingAtSignal = inWait;
+		signalAt = sim::simNow();
 		cond.signal();
 		mutex.unlock();
 		sim::event("signalled");
 	});
-	if (p.get("clock_jump_ms") && timed)
+	if (jump)
 	{
 		sim::yield();
 		sim::clockJumpSeconds(p.get("clock_jump_ms") * 0.001);
 	}
 	for (auto& t : tasks)
 		t.join();
+	double endAt = sim::simNow();
 	sim::NoSched ns;
 	sim::setNontrivial();
 	if (woke != W)
 		sim::fail("lost_signal", "condition", "%d of %d waiters returned", woke, W);
+	// lost signal that a re-checking waiter survives only thanks to its timeout (not judged under wall-clock jumps,
+	// which legitimately move the absolute deadline of a timed wait)
+	if (timed && !jump && (timedOutAfterSignal > 0 || (waitingAtSignal > 0 && endAt - signalAt > 5.0)))
+		sim::fail("lost_signal", "condition;timed_waiter_woken_by_timeout", "%d timed waiters were inside wait(30 s) when signal() was issued under the mutex; they returned %.1f simulated seconds later%s", waitingAtSignal,
+		          endAt - signalAt, timedOutAfterSignal ? " reporting a timeout" : "");
 }
 
 const char* REAL = "include/asl/Thread.h, Mutex.h (Thread, ThreadGroup, parallel_for, parallel_invoke, Semaphore, Condition, Mutex, Lock), atomic.h, Array.h";
